@@ -841,6 +841,16 @@ class PteraTransformer(NodeTransformer):
                 return _only_names(target.value)
             return isinstance(target, ast.Name)
 
+        if len(node.items) > 1:
+            # with A() as a, B(a) as b  is  with A() as a: with B(a) as b
+            # (a is bound, and may be given another value, before B(a))
+            inner = ast.copy_location(
+                ast.With(items=node.items[1:], body=node.body), node
+            )
+            node = ast.copy_location(
+                ast.With(items=node.items[:1], body=[inner]), node
+            )
+
         new_body = []
         new_items = []
         for item in node.items:
